@@ -87,10 +87,30 @@ class Gen:
             return op('TRY_EXCEPT') + u16(len(body)) + body + u16(len(exc)) + exc
         return body
 
+    def s_hostile_len(self):
+        """a two-byte length field that exceeds what is left of the script (or has its top bit set): every length
+        field of every block instruction, the other fields being valid"""
+        r = self.r
+        bad = u16(r.choice([0x7fff, 0x8000, 0x8001, 0xff00, 0xfff0, 0xfffe, 0xffff]))
+        body = self.s_push() if r.random() < 0.7 else b''
+        tail = self.s_push() if r.random() < 0.5 else b''
+        cond = r.choice([op('TRUE'), op('FALSE')])
+        k = r.choice(['IF', 'IF_ELSE:1', 'IF_ELSE:2', 'TRY:1', 'TRY:2', 'LOOP', 'DEF', 'PUSH2'])
+        if k == 'IF': return cond + op('IF') + bad + body + tail
+        if k == 'IF_ELSE:1': return cond + op('IF_ELSE') + bad + body + u16(0) + tail
+        if k == 'IF_ELSE:2': return cond + op('IF_ELSE') + u16(len(body)) + body + bad + tail
+        if k == 'TRY:1': return op('TRY_EXCEPT') + bad + body + u16(0) + tail
+        if k == 'TRY:2': return op('TRY_EXCEPT') + u16(len(body)) + body + bad + tail
+        if k == 'LOOP': return cond + op('LOOP') + bad + body + tail
+        if k == 'DEF': return op('DEF') + u8(r.choice([0, 1])) + bad + body + tail
+        return op('PUSH2') + bad + body + tail
+
     def snippet(self, depth):
         r = self.r
         if self.fork_code is not None and r.random() < 0.15:
             return self.s_fork()
+        if r.random() < 0.012:
+            return self.s_hostile_len()
         c = r.random()
         if c < 0.30: return self.s_push()
         if c < 0.55: return self.s_arith()
@@ -483,6 +503,8 @@ class Gen:
         if r.random() < 0.1: c['lst'] = [b'a', 'b', 3]
         if r.random() < 0.05: c['foo'] = True
         if r.random() < 0.08: c['ba'] = bytearray(self.rbytes(1, 6))
+        if r.random() < 0.5:       # a dict has an insertion order; the cache's meaning must not depend on it
+            items = list(c.items()); r.shuffle(items); c = dict(items)
         if r.random() < 0.03: c['timestamp'] = 'notint'
         if r.random() < 0.03: c['sigfield1'] = 5
         return c
